@@ -229,6 +229,11 @@ func (r *c20Run) scenario(procs int, dur time.Duration, seed uint64) {
 			r.fail("setup-failed", fmt.Sprintf("peer %d not created", i))
 			return
 		}
+		// c20SessionUp overwrites fsm.state: only after the peer's real FSM goroutine has read it
+		if !vAwaitFSMIdle(peers[i]) {
+			r.fail("setup-failed", fmt.Sprintf("the FSM goroutine of peer %d did not reach idle() within 60 s", i))
+			return
+		}
 	}
 	for _, p := range peers {
 		p := p
